@@ -359,6 +359,14 @@ def emit_fn(u, it, opts, header_lines, spec_lines, canary, recursor_file):
             u.emitted.append((cname, res.count('\n'), res.count('\n') + piece.count('\n')))
             res += piece
         return res
+    if canary:
+        # callers must keep seeing the ORIGINAL contract: emit a stub under the real name and the
+        # ensures-false copy under <name>__canary (its calls, also recursive ones, go to the stubs)
+        cname = name + '__canary'
+        h2, _ = X.rename_ident(header, name, cname)
+        piece = attrs + vis + h2.rstrip() + '\n' + pspec + '\n' + body + '\n'
+        u.emitted.append((name, stub.count('\n'), stub.count('\n') + piece.count('\n')))
+        return stub + piece
     piece = attrs + vis + header.rstrip() + '\n' + pspec + '\n' + body + '\n'
     u.emitted.append((name, 0, piece.count('\n')))
     return piece
